@@ -120,6 +120,13 @@ def translate_all(ctx):
                                   "from rspirv/dr/constructs.rs and rspirv/binary/assemble.rs")
         return R
     attempt("traversals", trav)
+    from translate import decode_operand
+    attempt("decode", lambda: decode_operand.parse(read(f"{REPO}/rspirv/binary/autogen_decode_operand.rs")))
+    if "decode" in T:
+        glue_gen.gen_decode(T["decode"], f"{HARNESS}/src/glue_decode.rs")
+        if "header" in T:
+            lean_emit.emit_decode(T["decode"], T["header"], "Rspirv.Generated.Decode", f"{GEN}/Decode.lean",
+                                  "from rspirv/binary/autogen_decode_operand.rs")
     ctx.data["T"] = T
     ctx.data["translate_fails"] = fails
     if "header" in T:
@@ -381,9 +388,10 @@ def canon(resp):
     return "panic" if resp.startswith("panic") else resp
 
 
-def shrink_request(ctx, req, still_differs, max_steps=200):
-    """Delta-debug the space-separated tokens after the head; returns a minimal request that still differs."""
-    head, *toks = req.split(" ")
+def shrink_request(ctx, req, still_differs, max_steps=200, keep=1):
+    """Delta-debug the space-separated tokens after the first `keep` ones; returns a minimal request that still differs."""
+    allt = req.split(" ")
+    head, toks = " ".join(allt[:keep]), allt[keep:]
     steps = 0
     n = 2
     while len(toks) >= 2 and steps < max_steps:
@@ -404,7 +412,7 @@ def shrink_request(ctx, req, still_differs, max_steps=200):
     return " ".join([head] + toks)
 
 
-def differential(ctx, reqs, channel, shrink=True, max_report=5, oracle=None):
+def differential(ctx, reqs, channel, shrink=True, max_report=5, oracle=None, keep=1):
     """Run the same requests through the real code and the Lean model; report disagreements (kind
     'correspondence') and, separately, failures of a property oracle evaluated on the implementation's
     answers (kind 'oracle'). Returns (impl_lines, model_lines)."""
@@ -421,10 +429,10 @@ def differential(ctx, reqs, channel, shrink=True, max_report=5, oracle=None):
     def differs(r):
         a = run_impl(ctx, [r])
         b = run_driver(ctx, [r])
-        return len(a) == 1 and len(b) == 1 and canon(a[0]) != canon(b[0])
+        return len(a) == 1 and len(b) == 1 and canon(a[0]) != canon(b[0]) and "bad-request" not in (a[0], b[0])
 
     for r, a, b in bad[:max_report]:
-        small = shrink_request(ctx, r, differs) if shrink else r
+        small = shrink_request(ctx, r, differs, keep=keep) if shrink else r
         a2, b2 = run_impl(ctx, [small])[0], run_driver(ctx, [small])[0]
         ctx.issue(f"correspondence:{channel}:{small[:120]}", "implementation and Lean model disagree",
                   witness={"request": small, "implementation": a2, "model": b2, "original_request": r},
@@ -440,7 +448,7 @@ def differential(ctx, reqs, channel, shrink=True, max_report=5, oracle=None):
         for r, a, msg in obad[:max_report]:
             small = r
             if shrink:
-                small = shrink_request(ctx, r, lambda q: bool(oracle(q, run_impl(ctx, [q])[0])))
+                small = shrink_request(ctx, r, lambda q: bool(oracle(q, run_impl(ctx, [q])[0])), keep=keep)
             a2 = run_impl(ctx, [small])[0]
             ctx.issue(f"oracle:{channel}:{small[:120]}", "the property fails on the implementation: " + oracle(small, a2),
                       witness={"request": small, "implementation": a2}, found_input=True, kind="oracle")
